@@ -13,10 +13,11 @@ import tempfile
 OUT = os.environ.get('PBT_OUT', '.')
 BIN_DIR = os.environ.get('PBT_BIN_DIR', os.path.join(os.path.dirname(os.path.abspath(__file__)), '..', 'build', 'bin'))
 SHIM = os.path.join(BIN_DIR, 'C20_shim')
-NAMES = ["render", "frame", "commit", "load.scene", "a", "B_2", "wait-for-gpu", "x y", "tile[3]", "io/read", "n10", "n11"]
-CATS = ["rk", "app", "io", "c3"]
-TNAMES = ["worker-0", "worker-1", "io thread", "main", "t4", "t5", "t6", "t7", "t8"]
-PNAMES = ["proc", "my process", "p2"]
+NAMES = ["render", "frame", "commit", "load.scene", "a", "B_2", "wait-for-gpu", "x y", "tile[3]", "io/read", "n10", "n11",
+         'load "scene.obj"', 'C:\\data\\mesh', 'line1\nline2\ttab', 'ctrl\x01end']
+CATS = ["rk", "app", "io", "c3", 'a"b\\c']
+TNAMES = ["worker-0", "worker-1", "io thread", "main", "t4", "t5", "t6", "t7", "t8", 'thread "9"']
+PNAMES = ["proc", "my process", "p2", 'proc\\with "quotes"']
 FMT = {  # fmt: (magic, bytes per input pixel, selected byte ranges per pixel, flip rows, third header line)
     'ppm': (b'P6', 4, [(0, 3)], True, b'255'),
     'pgm': (b'P5', 4, [(3, 4)], True, b'255'),
@@ -328,7 +329,9 @@ def campaign(which):
         thorough = os.environ.get('PBT_TIER') == 'thorough'
         # images of 1..16 MiB (quick) and 64..256 MiB (thorough) whose sizes are powers of two or one row off: a writer that
         # streams or tiles large images changes path there.  (fmt, w, h)
-        BIG = [('pf', 512, 512), ('pf4', 512, 512), ('pf', 2048, 2048), ('ppm', 1024, 1024), ('pf3', 1024, 1024), ('pf3a', 1024, 256), ('pgm', 2048, 512)]
+        BIG = [('pf', 512, 512), ('pf4', 512, 512), ('pf', 2048, 2048), ('ppm', 1024, 1024), ('pf3', 1024, 1024), ('pf3a', 1024, 256), ('pgm', 2048, 512),
+               # one output row larger than a thread stack (8 MiB): panoramas, 1-D lookup tables written as images
+               ('pf4', 600000, 1), ('ppm', 3000000, 2), ('pf3', 800000, 1)]
         if thorough:
             BIG += [('pf', 4096, 4096), ('pf4', 2048, 2048), ('pf4', 1024, 8192), ('pf', 4096, 4097), ('pf', 4096, 4095), ('ppm', 4096, 4096), ('pf3', 4096, 2048),
                     ('pf3a', 2048, 2048), ('pgm', 8192, 2048), ('pf', 8192, 8192), ('pf', 16384, 1024), ('pf4', 4096, 1024)]
